@@ -6,6 +6,7 @@ open Iox2.EventProto Iox2.Sched Driver Driver.TraceD
 def parseCmd : List String → Option Cmd
   | ["notify", id] => some (.notify (nat! id))
   | ["try_wait"] => some .tryWait
+  | ["blocking_wait"] => some .blockingWait
   | _ => none
 
 def tcomp : TComp :=
